@@ -53,6 +53,13 @@ def selection(ck, ctx):
         ck.ob("selection", "every-file-excludes-manifest", any(c[1] == "work::Work::lookup" for c in calls_in(e)), "want_every_file excludes the manifest target (%s)" % show(e, 2), span=t["loc"], fn=BUILD)
     info = R17.analyse(ck, ctx)
     p1 = info["p1"]
+    # ... and with nothing asked and no default it is unavoidable before the build runs
+    wef = [bb for bb, t in Q.sites_in(b, "work::Work::want_every_file")]
+    both_empty = [tt for (x, lab) in d_empty for tt in cfg.edge_targets(x, lab) if Q.gated(cfg, x, t_empty)[0]]
+    tries_ = {(tb, v[1]) for tb, v in C.try_err_edges(ctx, b).items()}
+    r_ = cfg.reach_avoid(both_empty, avoid_blocks=wef, avoid_edges=tries_)
+    ck.ob("selection", "every-file-when-nothing-asked", bool(wef) and bool(both_empty) and info["p2"][0] not in r_, "with no target named and no default statement the final Work::run is reached only through want_every_file", span=b.loc, fn=BUILD)
+    # same for the defaults: with defaults present each one is wanted before the run
     wfs = [(bb, t) for bb, t in Q.sites_in(b, "work::Work::want_file") if not cfg.dominates(bb, p1[0])]
     kinds = {}
     for bb, t in wfs:
